@@ -45,6 +45,9 @@ claimed["C13"] = dict(engine="vqueue", category="exploration", design="DESIGN.md
    note="Assumes sequentially consistent atomics and preemption only between atomic operations; histories stay below 20 operations so the linearizability check is instant; porcupine timeouts are counted inconclusive.")
 claimed["C03"]["text"] += " A second engine (vpoll) runs the real netpoll.Poller and queue alone on the simulated kernel with 1..4 producers and small task-batch thresholds, where a consumer parked in epoll_wait with a non-empty queue is reported with its exact schedule; default and poll_opt builds."
 
+claimed["C18"] = dict(engine="vsim", category="fault_enumeration", design="DESIGN.md §3 C18", technique=SIM_TECH + "; single faults enumerated per call site and call index over seeded scenarios", note=SIM_NOTE + " Enumeration is complete per scenario for the listed sites, call indexes up to the bound and errno sets (reported as scenarios-enumerated-completely); scenarios themselves are sampled. Fatal epoll_wait errors, EMFILE on accept and eventfd write failures are not injected (the engine shuts down or the statement does not cover them).",
+   text="For each seeded scenario the syscall trace of a fault-free run is recorded, then every single fault (site x call index <= K x realistic errno) is injected in a separate deterministic run on the same schedule prefix, with bystander connections carrying byte-checked traffic and a late probe connection proving the engine stayed up; plus random plans with random faults. Found that a failing epoll_ctl MOD in eventloop.write left the connection open with a stale registration (repaired).")
+
 not_applicable = {
  "C16": "pure function of a string / a few integers (parseProtoAddr, capacity normalisation, loop-count clamp): no schedule, clock, I/O or fault for a simulator to control; generating strings would be input fuzzing in simulator vocabulary (DESIGN.md §4)",
  "C20": "pure integer arithmetic (power-of-two helpers, size-class index, GFD pack/unpack): exhaustive enumeration or proof is the right tool, not simulation (DESIGN.md §4)",
